@@ -37,6 +37,8 @@ class C18(core.Prop):
 
     def corpus(self):
         return [
+            {'t': 'nextgen', 'keys': [3], 'commits': 2}, {'t': 'nextgen', 'keys': [1, 3], 'commits': 1}, {'t': 'nextgen', 'keys': [], 'commits': 2},
+            {'t': 'repackage', 'name': 'foo', 'package': 'rpc0', 'old_version': '1', 'new_version': '2', 'marker': 'Rc0'},
             {'t': 'install', 'name': 'foo', 'version': '1', 'package': 'acme', 'where': {'source': 'parts.input', 'pipeline': 'pipeline'},
              'style': {'source': 'relative', 'pipeline': 'default'}, 'marker': 'Mc0', 'zip': False},
             {'t': 'install', 'name': 'foo', 'version': '1', 'package': 'acme.core', 'where': {'source': 'source', 'pipeline': 'a.flow'},
@@ -92,6 +94,14 @@ class C18(core.Prop):
             mods = {k: f'pkg{rng.randint(0, 9)}.mod{rng.randint(0, 9)}' for k in rng.sample(['pipeline', 'source', 'evaluation', 'tuning'], rng.randint(0, 3))}
             out.append({'t': 'manifest', 'name': rng.choice(['foo', 'forml-tutorial', 'my_prj', 'a.b']), 'version': rng.choice(['1', '0.1.dev2', '2!1.0', '1.2rc1.post3']),
                         'package': rng.choice(['foo', 'foo.bar', 'x_y.z']), 'modules': mods})
+        for _ in range(max(6, n // 20)):
+            # committing into a release whose generation keys have holes (pruned generations): always above the maximum
+            keys = sorted(rng.sample(range(1, 15), rng.randint(0, 5)))
+            out.append({'t': 'nextgen', 'keys': keys, 'commits': rng.randint(1, 3)})
+        for k in range(max(3, n // 40)):
+            # a directory-based package re-created as an archive under another manifest
+            old, new = rng.sample(['1', '1.1', '2.0.dev1', '0.9'], 2)
+            out.append({'t': 'repackage', 'name': 'foo', 'package': f'rp{k}x{rng.randint(0, 999)}', 'old_version': old, 'new_version': new, 'marker': f'R{k}'})
         for k in range(max(4, n // 25)):
             # a package written to disk (directory / zip), installed, and its components loaded
             pkg = rng.choice(['acme', 'acme.core', 'x_y'])
@@ -109,7 +119,7 @@ class C18(core.Prop):
     def coq_case(self, case, obs):
         t = case['t']
         if 'error' in obs:
-            return None if t in ('manifest', 'install') else '(C18.CGenKey 1%Z None None)'
+            return None if t in ('manifest', 'install', 'nextgen', 'repackage') else '(C18.CGenKey 1%Z None None)'
         if t == 'tag':
             return (f"(C18.CTag {co(case['trts'], cz, 'Z')} {co(case['trord'], cz, 'Z')} {co(case['tuts'], cz, 'Z')} "
                     f"{co(case['tuscore'], cz, 'Z')} {cl([cz(s) for s in case['states']], 'Z')} {ctag(obs)})")
@@ -183,6 +193,16 @@ class C18(core.Prop):
         elif t == 'manifest':
             if not obs['equal'] or obs['modules'] != case['modules'] or obs['package'] != case['package']:
                 return f'manifest {case} read back as {obs}'
+        elif t == 'nextgen':
+            top, want = max(case['keys'], default=0), []
+            for _ in range(case['commits']):
+                top += 1
+                want.append(top)
+            if obs['closed'] != want:
+                return f"committing {case['commits']} generation(s) over existing keys {case['keys']} stored them as {obs['closed']}, expected {want} (one above the maximum)"
+        elif t == 'repackage':
+            if obs['created'] != case['new_version'] or obs['reread'] != case['new_version'] or obs['source'] != f"T{case['marker']}[T{case['marker']}.x]":
+                return f"package re-created under version {case['new_version']} (the tree carried {case['old_version']}) reads back as {obs}"
         elif t == 'install':
             m = case['marker']
             if obs['source'] != f'T{m}[T{m}.x]' or obs['pipeline'] != f'op{m}' or not obs['manifest_equal']:
@@ -199,6 +219,10 @@ class C18(core.Prop):
             return len(set(case['keys'])) < len(case['keys'])
         if t == 'install':
             return any('.' in w for w in case['where'].values()) or case['zip']
+        if t == 'nextgen':
+            return bool(case['keys']) and case['keys'] != list(range(1, len(case['keys']) + 1))
+        if t == 'repackage':
+            return True
         return False
 
     def distribution(self, cases, observations):
